@@ -247,6 +247,17 @@ func checkC05(r *core.Run) {
 		}
 		keep = append(keep, reachFrom(w, keep, pRM, pTCC)...)
 		recoverSurfaces(r, "C05.status", keep)
+		// what is registered for a branch (resource id, application data = the tagged parameters) and what phase
+		// two rebuilds from it depend on this request only: no memo keyed by less than the parameter type, no
+		// remembered answer (C05.pure).
+		var chain []*core.FuncInfo
+		if prep != nil {
+			chain = append(chain, prep)
+		}
+		chain = append(chain, keep...)
+		chain = append(chain, reachFrom(w, chain, pRM, pTCC)...)
+		pureOfRuntimeState(r, "C05.pure", "the registration data / action context of a TCC branch", chain, nil)
+		r.Floor("C05.pure", 10)
 	}
 	r.Floor("C05.before", 4)
 	r.Floor("C05.param", 4)
